@@ -291,7 +291,7 @@ impl Segment {
                 log_writer.shutdown_persister_task().await;
             });
             #[cfg(iggy_verif)]
-            tokio::spawn(iggy::verif::wrap_spawn("close_log", async move {
+            tokio::spawn(iggy::verif::wrap_spawn(&format!("close_log:{}", self.log_path), async move {
                 let _ = log_writer.fsync().await;
                 log_writer.shutdown_persister_task().await;
             }));
@@ -309,7 +309,7 @@ impl Segment {
                 drop(index_writer)
             });
             #[cfg(iggy_verif)]
-            tokio::spawn(iggy::verif::wrap_spawn("close_index", async move {
+            tokio::spawn(iggy::verif::wrap_spawn(&format!("close_index:{}", self.index_path), async move {
                 let _ = index_writer.fsync().await;
                 drop(index_writer)
             }));
